@@ -778,3 +778,86 @@ Proof.
   - destruct (P_local_caps d) as (A & B & C).
     split; [exact A|]. split; [exact B|]. split; [exact C|]. split; discriminate.
 Qed.
+
+(** * tpmeventlog.Replay and its optional log writer *)
+From CSS Require Model.EventLog Proofs.EventLog.
+
+Lemma fprintf_at_ok : forall ns w k, (w <> W_NIL \/ forall j, ns j = true) -> fprintf_at ns w k = Ok tt.
+Proof.
+  intros ns w k [Hw|Hs]; destruct w; cbn [fprintf_at]; try reflexivity; try congruence.
+  rewrite Hs. reflexivity.
+Qed.
+
+Lemma replay_loop_w_eq : forall ns H w, (w <> W_NIL \/ forall j, ns j = true) ->
+  forall size p a evs res,
+  replay_loop_w ns H w size p a evs res = EventLog.replay_loop H size p a evs res.
+Proof.
+  intros ns H w Hw size p a. induction evs as [|e t IH]; intro res; cbn [replay_loop_w EventLog.replay_loop]; [reflexivity|].
+  rewrite !(fprintf_at_ok ns w _ Hw).
+  destruct (EventLog.ev_type e =? EventLog.EV_NO_ACTION).
+  - destruct (negb (EventLog.is_nil res)); [reflexivity|]. destruct (p =? 0); [|reflexivity].
+    destruct (EventLog.parse_locality (EventLog.ev_data e)); cbn [Base.bind]; try reflexivity.
+    destruct (EventLog.zeros_loc size a0); cbn [Base.bind]; try reflexivity. apply IH.
+  - destruct (EventLog.is_nil res).
+    + destruct (p =? 0); cbn [Base.bind]; [|reflexivity].
+      destruct (EventLog.ev_digest e); [|reflexivity]. apply IH.
+    + cbn [Base.bind]. destruct (EventLog.ev_digest e); [|reflexivity]. apply IH.
+Qed.
+
+Lemma Q_replay_w_eq : forall ns H w, (w <> W_NIL \/ forall j, ns j = true) ->
+  forall l p a, replay_w ns H w l p a = EventLog.replay H l p a.
+Proof.
+  intros ns H w Hw l p a. unfold replay_w, EventLog.replay.
+  destruct (EventLog.hash_size a) as [size|]; [|reflexivity].
+  destruct (EventLog.filter_events size p a l) as [evs| | |]; cbn [Base.bind]; try reflexivity.
+  rewrite (fprintf_at_ok ns w _ Hw). cbn [Base.bind].
+  destruct (p =? 0); cbn [Base.bind].
+  - rewrite (replay_loop_w_eq ns H w Hw). reflexivity.
+  - destruct (p =? 1); cbn [Base.bind]; [|reflexivity]. rewrite (replay_loop_w_eq ns H w Hw). reflexivity.
+Qed.
+
+(** the result does not depend on the writer, nil included *)
+Lemma Q_replay_out_writer : forall H w l p a, replay_out H w l p a = EventLog.replay H l p a.
+Proof. intros. unfold replay_out. apply Q_replay_w_eq. right. reflexivity. Qed.
+
+Lemma Q_replay_out_total : forall H w l p a,
+  replay_out H w l p a <> Panic /\ replay_out H w l p a <> OutOfFuel.
+Proof. intros. rewrite Q_replay_out_writer. apply Proofs.EventLog.replay_total. Qed.
+
+(** a site that does not cope with a nil writer matters for the nil writer only *)
+Lemma Q_replay_w_writer_given : forall ns H w l p a, w <> W_NIL ->
+  replay_w ns H w l p a = replay_out H W_NIL l p a.
+Proof. intros. rewrite Q_replay_out_writer. apply Q_replay_w_eq. left. assumption. Qed.
+
+(** "StartupLocality\x00\x03" *)
+Definition ex_startup3 : list Z := EventLog.STARTUP_LOCALITY ++ [0; 3].
+Definition ex_dg : option EventLog.digest := Some (EventLog.mkDg 4 (repeat 17 20)).
+(** per write site the shortest log that reaches it *)
+Definition ex_site_log (k : Z) : list EventLog.event * Z :=
+  if k =? 0 then ([], 1)
+  else if k =? 1 then ([EventLog.mkEv 0 EventLog.EV_NO_ACTION ex_startup3 ex_dg], 0)
+  else ([EventLog.mkEv 0 EventLog.EV_POST_CODE [] ex_dg], 0).
+
+(** every one of the five write sites is reached with a nil writer by some log on which Replay
+    returns a value: a single site that does not cope with nil is a panic *)
+Lemma Q_replay_needs_nil_safe : forall H k, 0 <= k < 5 ->
+  let '(l, p) := ex_site_log k in
+  replay_w (all_safe_but k) H W_NIL l p 4 = Panic /\
+  (exists v, replay_out H W_NIL l p 4 = Ok v) /\
+  replay_w (all_safe_but k) H W_SINK l p 4 = replay_out H W_NIL l p 4.
+Proof.
+  intros H k Hk. assert (E : k = 0 \/ k = 1 \/ k = 2 \/ k = 3 \/ k = 4) by lia.
+  destruct E as [E|[E|[E|[E|E]]]]; subst k; cbn [ex_site_log Z.eqb Pos.eqb];
+    (split; [vm_compute; reflexivity|split; [vm_compute; try (eexists; reflexivity); destruct (H 4 _); eexists; reflexivity|vm_compute; reflexivity]]).
+Qed.
+
+(** the case of the "no init event seen" site: without nil-safety there, a nil writer panics exactly on
+    the PCR0 logs (supported algorithm, digests of the right length) whose first selected event is a measurement *)
+Lemma Q_replay_site_zeros_panics : forall H l a size e t,
+  EventLog.hash_size a = Some size -> EventLog.filter_events size 0 a l = Ok (e :: t) ->
+  (EventLog.ev_type e =? EventLog.EV_NO_ACTION) = false ->
+  replay_w (all_safe_but W_SITE_SET_ZEROS) H W_NIL l 0 a = Panic.
+Proof.
+  intros H l a size e t Hs Hf Ht. unfold replay_w. rewrite Hs, Hf. cbn [Base.bind Z.eqb replay_loop_w].
+  rewrite Ht. cbn [EventLog.is_nil Z.eqb]. reflexivity.
+Qed.
